@@ -59,6 +59,7 @@ type GenOpts struct {
 	LongIDs     bool  // occasionally an _id at the byte-length boundaries of its varint length prefix (127..5000 bytes)
 	HugeIDs     bool  // with LongIDs: also ids of 16384 .. 65536 bytes
 	Geo         bool  // some field instances are geo-shape fields (their encoded shape is an extra doc value)
+	DupIDs      bool  // some documents carry the _id of an earlier document of the batch
 	FieldSel    []int // when set: the field names in play are FieldNames[FieldSel[0..NFields)] instead of a prefix of FieldNames
 }
 
@@ -183,6 +184,9 @@ func GenBatch(r *Rng, o GenOpts) Batch {
 	}
 	for i := 0; i < o.NDocs; i++ {
 		id := fmt.Sprintf("%s%03d", o.IDBase, i)
+		if o.DupIDs && i > 0 && r.Chance(4) {
+			id = fmt.Sprintf("%s%03d", o.IDBase, r.Intn(i)) // the id of an earlier document of the batch
+		}
 		if o.LongIDs && r.Chance(6) {
 			lens := []int{127, 128, 129, 255, 256, 257, 300, 1000, 5000}
 			if o.HugeIDs {
